@@ -882,9 +882,21 @@ impl<const N: usize> SubscriptionsInner<N> {
     ) where
         B: Buffers<IMBuffer> + 'a,
     {
-        // Always clear the reporting slot; it was populated in `report()`.
-        self.reporting = None;
-        let cancelled = self.reporting_cancelled.take();
+        // Clear the reporting slot populated in `report()` - but only if it is this
+        // subscription that is being reported on. A subscription that was just primed
+        // completes through here as well, possibly while the reporter has another
+        // subscription in flight: that one must stay visible (to `remove`), and a
+        // cancellation recorded for it must not be taken by the primed subscription.
+        let cancelled = if self
+            .reporting
+            .as_ref()
+            .is_some_and(|reporting| reporting.ids.id == sub.ids.id)
+        {
+            self.reporting = None;
+            self.reporting_cancelled.take()
+        } else {
+            None
+        };
 
         if let Some(reason) = cancelled {
             info!(
